@@ -3,8 +3,9 @@
 From Coq Require Import String Ascii List Bool ZArith Permutation QArith.
 From FV.C01 Require Import Str Dec.
 From FV.C03 Require Import Model ProofsRows ProofsText ProofsGroup.
-From FV.C03 Require Fmt.
+From FV.C03 Require Fmt Floats ProofsFloats.
 Import ListNotations.
+Local Close Scope Q_scope.
 Local Open Scope string_scope.
 
 (* For every well-formed set of conditions (solution type a \w+ word; each
@@ -126,5 +127,55 @@ Example C03_example_fmt :
   Fmt.fmt_text 6 true 0 0 = "-0.000000E+00".
 Proof. vm_compute. repeat split. Qed.
 
+(* ------------------------------------------------------------------ *)
+(* The round trip on the conditions as the caller holds them: tables of
+   binary64 values (Floats.b64 = (-1)^neg * m * 2^e, None = NaN = free).
+   For every shape-correct set of conditions (any NaN pattern with >= 1
+   prescription per table, any node subset, any finite values), the file the
+   writer emits for them is read back with the same solution type and, per
+   kind, exactly the prescriptions (node id, dof, value) of the tables with
+   every value replaced by the decimal "%.<k>E" prints for it (k = 5 boundary,
+   6 spring / cload, 12 fixtemp / cflux), up to order for boundary / cload. *)
+Theorem C03_cnt_roundtrip_binary64 :
+  forall (pats : list ipat) (ngs : list (string * list Z)) (fc : Floats.fcnt),
+  ProofsFloats.shape_ok fc = true ->
+  exists ls r, write_cnt (Floats.cnt_of fc) = Ok ls /\ read_cnt_with pats ngs ls = Ok r /\
+    r_solution r = Floats.fc_solution fc /\
+    Permutation (opt_presc (r_boundary r)) (Floats.opt_fpresc 5 (Floats.fc_boundary fc)) /\
+    opt_presc (r_spring r) = Floats.opt_fpresc 6 (Floats.fc_spring fc) /\
+    Permutation (opt_presc (r_cload r)) (Floats.opt_fpresc 6 (Floats.fc_cload fc)) /\
+    r_fixtemp r = option_map (Floats.dec_values 12) (Floats.fc_fixtemp fc) /\
+    r_cflux r = option_map (Floats.dec_values 12) (Floats.fc_cflux fc).
+Proof. exact ProofsFloats.cnt_roundtrip_binary64. Qed.
+
+(* the decimal a non-zero value is replaced by is built from the certified
+   digits of Fmt.fmt_E, to which C03_fmt_digits_within_half_ulp applies *)
+Theorem C03_written_decimal_is_fmt_E :
+  forall k x, Floats.fmt_ok k x = true -> Floats.f_m x <> 0%Z ->
+  exists N E, Fmt.fmt_E k (Floats.f_m x) (Floats.f_e x) = Some (N, E) /\
+              Floats.fqd k x = Fmt.dec_of (Floats.f_neg x) k N E.
+Proof. exact ProofsFloats.fqd_digits. Qed.
+
+(* non-vacuity: boundary {5: (0.0, NaN, 1/3), 9: (NaN, -2.5, NaN)}, fixtemp {5: 10.5} *)
+Definition example_fcnt : Floats.fcnt :=
+  let F := Floats.mkb64 in
+  Floats.mkfcnt "HEAT" false
+    (Some [(5, [Some (F false 0 0); None; Some (F false 6004799503160661 (-54))]);
+           (9, [None; Some (F true 5 (-1)); None])]%Z)
+    None None (Some [(5, F false 21 (-1))]%Z) None.
+
+Example C03_example_binary64 :
+  ProofsFloats.shape_ok example_fcnt = true /\
+  match write_cnt (Floats.cnt_of example_fcnt) with
+  | Ok ls => firstn 6 (skipn 8 ls)
+  | Err _ => []
+  end = ["!BOUNDARY"; "5,1,1,0.00000E+00"; "9,2,2,-2.50000E+00"; "5,3,3,3.33333E-01";
+         "!FIXTEMP"; "5,1.050000000000E+01"] /\
+  forallb (Floats.fmt_ok 5)
+          [Floats.mkb64 false 6004799503160661 (-54); Floats.mkb64 true 5 (-1)]%Z = true.
+Proof. vm_compute. repeat split. Qed.
+
 Print Assumptions C03_fmt_digits_within_half_ulp.
 Print Assumptions C03_fmt_relative_precision.
+Print Assumptions C03_cnt_roundtrip_binary64.
+Print Assumptions C03_written_decimal_is_fmt_E.
